@@ -59,10 +59,73 @@ func runEOFRem(c *core.Ctx) []core.Obligation {
 			}
 		}
 	}
+	// the dual: a syntax error found at a position inside the buffered data is returned with the
+	// remainder at that position. A nil remainder (a named result never assigned) reads as "input
+	// ended": the Decoder keeps buffering the rest of the stream before it reports anything.
+	m := 0
+	for _, fn := range fns {
+		name := shortName(fn)
+		if fn.Blocks == nil || !strings.HasPrefix(name, "json.(decoder).parse") {
+			continue
+		}
+		res := fn.Signature.Results()
+		if res.Len() != 4 || res.At(3).Type().String() != "error" {
+			continue
+		}
+		count := 0
+		for _, r := range returnsOf(fn) {
+			if len(r.Results) != 4 {
+				continue
+			}
+			for _, pair := range errPairs(r.Results[1], r.Results[3], r.Block(), "syntaxError") {
+				m++
+				count++
+				key := fmt.Sprintf("eofrem:syntax-error-positioned:%s#%d", name, count)
+				if k, isK := pair.rem.(*ssa.Const); isK && k.Value == nil {
+					b.bad(key, c.InstrPos(r), name+" returns a syntax error with a nil remainder (the result was never assigned on this path): Decoder.readValue reads an empty remainder as \"the buffered data ended\" and keeps reading the stream to its end before reporting anything, where its siblings hand back the remainder at the offending byte and the error is reported at once")
+				} else {
+					b.ok(key, c.InstrPos(r), "syntax error returned with a remainder")
+				}
+			}
+		}
+	}
 	if n == 0 {
 		b.und("eofrem:-", "-", "no unexpected-EOF return found in json's parse functions")
 	}
+	if m == 0 {
+		b.und("eofrem:syntax-error-positioned", "-", "no syntax-error return found in json's parse functions")
+	}
 	return b.out
+}
+
+func errPairs(rem, err ssa.Value, blk *ssa.BasicBlock, ctor string) []eofPair {
+	is := func(v ssa.Value) bool {
+		call, ok := v.(*ssa.Call)
+		if !ok {
+			return false
+		}
+		f := staticCallee(call.Common())
+		return f != nil && f.Name() == ctor
+	}
+	if is(err) {
+		return []eofPair{{rem, blk}}
+	}
+	ephi, ok := err.(*ssa.Phi)
+	if !ok {
+		return nil
+	}
+	var out []eofPair
+	for i, e := range ephi.Edges {
+		if !is(e) {
+			continue
+		}
+		r := rem
+		if rphi, isPhi := rem.(*ssa.Phi); isPhi && rphi.Block() == ephi.Block() {
+			r = rphi.Edges[i]
+		}
+		out = append(out, eofPair{r, ephi.Block().Preds[i]})
+	}
+	return out
 }
 
 type eofPair struct {
